@@ -113,24 +113,22 @@ def gen_cases(rng, tier):
 
 
 def search_cases(rng, tier):
-    """wider random schedules, plus macro-step schedules (`tid*` runs a thread up to its next dispatch-state /
-    ready-queue / mailbox linearisation point) on small configurations built for reclaim and wake-up races.
-    Macro entries are only understood by the Go harness: these cases are judged by the oracle, never replayed
+    """wider random schedules, plus PCT schedules (`pct seed depth k`: the Go harness schedules online by random priorities with depth-1
+    priority change points over macro steps that end before dispatch-state / ready-queue / mailbox linearisation
+    points) on small configurations built for reclaim and wake-up races. They are only understood by the Go harness: these cases are judged by the oracle, never replayed
     on the model."""
     cases = [one_case(rng, restart_p=0.6, maxsched=140) for _ in range(600)]
-    for _ in range(5000):
+    for i in range(6000):
         nw = 2
         budget = rng.choice([1, 2, 3])
         ns = rng.randint(2, 3)
-        progs = [[f"t{i+1}"] for i in range(ns)] + [["w0"] * 3, ["w1"] * 3]
+        progs = [[f"t{j+1}"] for j in range(ns)] + [["w0"] * 3, ["w1"] * 3]
         if rng.random() < 0.2:
             progs.insert(0, ["r"])
-        nt = len(progs)
-        sched = []
-        for _ in range(rng.randint(4, 14)):
-            t = rng.randrange(nt)
-            sched += [f"{t}*"] * rng.choice([1, 1, 2, 2, 3, 4, 6, 9])
-        cases.append(f"{nw} {budget} | " + " ; ".join(" ".join(p) for p in progs) + " | " + " ".join(sched))
+        rng.shuffle(progs)
+        depth = rng.choice([2, 3, 3, 3, 4])
+        k = rng.choice([12, 18, 25, 35])
+        cases.append(f"{nw} {budget} | " + " ; ".join(" ".join(p) for p in progs) + f" | pct {rng.randrange(1 << 30)} {depth} {k}")
     return cases
 
 
